@@ -24,6 +24,8 @@ type Op struct {
 	K   string `json:"k"` // put | get | del
 	Key int    `json:"key"`
 	Val int    `json:"val,omitempty"`
+	// N > 1: the same operation on the N consecutive keys Key, Key+1, ... (values Val, Val+1, ...)
+	N int `json:"n,omitempty"`
 }
 
 type WL struct {
@@ -33,7 +35,64 @@ type WL struct {
 	Clients [][]Op `json:"clients"`
 }
 
+// genBulk: capacities in the hundreds and thousands, driven by range operations (fill, touch, drain).
+// Bookkeeping that only engages past some size - sweep budgets, growth and release thresholds, wide
+// counters - is out of reach of two-digit capacities, whatever the schedule.
+func genBulk(r *rand.Rand) WL {
+	w := WL{Impl: []string{"sieve", "sieve", "nemap"}[r.IntN(3)]}
+	switch r.IntN(3) {
+	case 0:
+		w.Cap = 20 + r.IntN(2500)
+	case 1:
+		w.Cap = (1 << (4 + r.IntN(8))) + r.IntN(5) - 2 // around a power of two, 16..2048
+	default:
+		w.Cap = 100 + r.IntN(500)
+	}
+	w.Keys = w.Cap + 1 + r.IntN(w.Cap/2+2)
+	nc := 1
+	if r.IntN(3) == 0 {
+		nc = 2
+	}
+	val := 0
+	for c := 0; c < nc; c++ {
+		var ops []Op
+		n := 3 + r.IntN(6)
+		for i := 0; i < n; i++ {
+			o := Op{K: []string{"put", "put", "get", "get", "del"}[r.IntN(5)]}
+			switch r.IntN(4) {
+			case 0, 1: // the whole key space, or exactly as many keys as fit
+				o.Key, o.N = 0, []int{w.Keys, w.Cap}[r.IntN(2)]
+			case 2:
+				o.Key = r.IntN(w.Keys)
+				o.N = 1 + r.IntN(w.Keys-o.Key)
+			default: // one key, often one that was never resident
+				o.Key, o.N = r.IntN(w.Keys), 1
+			}
+			if o.K == "put" {
+				o.Val = val + 1
+				val += o.N
+			}
+			ops = append(ops, o)
+		}
+		w.Clients = append(w.Clients, ops)
+	}
+	return w
+}
+
+func totalOps(w WL) int {
+	n := 0
+	for _, ops := range w.Clients {
+		for _, o := range ops {
+			n += max(1, o.N)
+		}
+	}
+	return n
+}
+
 func gen(r *rand.Rand) WL {
+	if r.IntN(12) == 0 {
+		return genBulk(r)
+	}
 	w := WL{Impl: []string{"sieve", "nemap"}[r.IntN(2)]}
 	w.Cap = []int{-1, 0, 1, 1, 2, 2, 3, 3, 4, 6}[r.IntN(10)]
 	w.Keys = 2 + r.IntN(4)
@@ -148,37 +207,49 @@ func exec(t *testing.T, w WL, cfg simrt.Config) simh.Outcome {
 		solo := len(w.Clients) == 1
 		for ci, ops := range w.Clients {
 			s.Spawn(func() {
-				for _, op := range ops {
-					call := s.Seq()
-					var o out
-					switch op.K {
-					case "stats":
-						before := c.Stats().Size()
-						comb := c.Stats().Combined(aux.Stats())
-						if solo && comb.Size() != before+2 && sizeBad == "" {
-							sizeBad = fmt.Sprintf("Stats().Combined reported size %d for caches holding %d and 2 entries", comb.Size(), before)
+				for _, mop := range ops {
+					for rep := 0; rep < max(1, mop.N); rep++ {
+						op := Op{K: mop.K, Key: mop.Key + rep, Val: mop.Val}
+						if op.K == "put" {
+							op.Val += rep
 						}
-						counters["stats_combined_calls"]++
-					case "put":
-						c.Put(op.Key, op.Val)
-					case "del":
-						c.Delete(op.Key)
-					default:
-						o.Val, o.Hit = c.Get(op.Key)
-					}
-					ret := s.Seq()
-					if op.K != "stats" {
-						hist[ci] = append(hist[ci], porcupine.Operation{ClientId: ci, Input: op, Output: o, Call: int64(call), Return: int64(ret)})
-					}
-					if solo && sizeBad == "" {
-						if sz := c.Stats().Size(); sz > int64(effCap(w)) || sz < 0 {
-							sizeBad = fmt.Sprintf("after %s(%d): size statistic %d outside [0,%d]", op.K, op.Key, sz, effCap(w))
+						call := s.Seq()
+						var o out
+						switch op.K {
+						case "stats":
+							before := c.Stats().Size()
+							comb := c.Stats().Combined(aux.Stats())
+							if solo && comb.Size() != before+2 && sizeBad == "" {
+								sizeBad = fmt.Sprintf("Stats().Combined reported size %d for caches holding %d and 2 entries", comb.Size(), before)
+							}
+							counters["stats_combined_calls"]++
+						case "put":
+							c.Put(op.Key, op.Val)
+						case "del":
+							c.Delete(op.Key)
+						default:
+							o.Val, o.Hit = c.Get(op.Key)
+						}
+						ret := s.Seq()
+						if op.K != "stats" {
+							hist[ci] = append(hist[ci], porcupine.Operation{ClientId: ci, Input: op, Output: o, Call: int64(call), Return: int64(ret)})
+						}
+						if solo && sizeBad == "" {
+							if sz := c.Stats().Size(); sz > int64(effCap(w)) || sz < 0 {
+								sizeBad = fmt.Sprintf("after %s(%d): size statistic %d outside [0,%d]", op.K, op.Key, sz, effCap(w))
+							}
 						}
 					}
 				}
 			})
 		}
 	})
+	if totalOps(w) > 200 {
+		counters["bulk_range_workloads"]++
+		if effCap(w) >= 512 {
+			counters["bulk_capacity_ge_512"]++
+		}
+	}
 	o := simh.Outcome{Res: res, Counters: counters}
 	if res.Infra != "" || res.Panic != "" || res.Hang || res.Livelock {
 		return o
@@ -238,6 +309,23 @@ func shrink(w WL) []WL {
 			res = append(res, c)
 		}
 	}
+	// halve a range operation
+	for i, ops := range w.Clients {
+		for j, o := range ops {
+			if o.N > 1 {
+				c := w
+				c.Clients = append([][]Op{}, w.Clients...)
+				c.Clients[i] = append([]Op{}, ops...)
+				c.Clients[i][j].N = o.N / 2
+				res = append(res, c)
+				c2 := w
+				c2.Clients = append([][]Op{}, w.Clients...)
+				c2.Clients[i] = append([]Op{}, ops...)
+				c2.Clients[i][j].N = o.N - 1
+				res = append(res, c2)
+			}
+		}
+	}
 	// drop one operation
 	for i, ops := range w.Clients {
 		for j := range ops {
@@ -255,5 +343,8 @@ func shrink(w WL) []WL {
 
 func TestSim(t *testing.T) {
 	simh.Main(t, simh.Harness[WL]{Property: "C16", Gen: gen, Exec: exec, Shrink: shrink,
-		Tune: func(w WL, cfg *simrt.Config) { cfg.MaxSteps = 4000; cfg.FairSteps = 4000 }})
+		Tune: func(w WL, cfg *simrt.Config) {
+			cfg.MaxSteps = max(4000, 60*totalOps(w))
+			cfg.FairSteps = cfg.MaxSteps
+		}})
 }
